@@ -4,7 +4,7 @@ from pathlib import Path
 LIBS = ["libavoid"]
 HARNESS = "harness/c05.cpp"
 DRIVER_MODE = "c05"
-LEAN_MODULES = ["AdaptaVerif.Props.C05", "AdaptaVerif.Props.C05Tie", "AdaptaVerif.Props.C05AStar", "AdaptaVerif.Props.C05OrthVis"]
+LEAN_MODULES = ["AdaptaVerif.Props.C05", "AdaptaVerif.Props.C05Tie", "AdaptaVerif.Props.C05AStar", "AdaptaVerif.Props.C05OrthVis", "AdaptaVerif.Props.C05OrthVisRoute"]
 LEVEL = "translation_validation"
 LEVEL_TEXT = ("Sentence 3 (estimator never overestimates) is a Lean theorem for all rational inputs about a "
               "hand model of bends()/estimatedCostSpecific() (bends_admissible, bends_tight, bends_total, "
